@@ -417,7 +417,8 @@ class Check:
             path.write_text(json.dumps({
                 "property": self.pid, "kind": "failing-input", "signature": first["signature"],
                 "what": first["what"], "input": first["input"],
-                "more": [{"signature": f["signature"], "what": f["what"], "input": f["input"]} for f in unknown[1:20]],
+                "more": _per_signature(unknown[1:], 5),
+                "failures_by_signature": dict(collections.Counter(f["signature"] for f in unknown)),
                 "broken_proof_obligations": broken, "correspondence_disagreements": self.disagreements[:5],
                 "replay": f"./check {self.pid} --replay replays/{path.name}",
             }, indent=1, default=str))
@@ -477,6 +478,16 @@ class Check:
         }
         (VERIF / "evidence").mkdir(exist_ok=True)
         (VERIF / "evidence" / f"{self.pid}.json").write_text(json.dumps(ev, indent=1, default=str) + "\n")
+
+
+def _per_signature(fs: list[dict[str, Any]], k: int) -> list[dict[str, Any]]:
+    seen: collections.Counter[str] = collections.Counter()
+    out = []
+    for f in fs:
+        if seen[f["signature"]] < k:
+            seen[f["signature"]] += 1
+            out.append({"signature": f["signature"], "what": f["what"], "input": f["input"]})
+    return out[:60]
 
 
 def hexs(b: bytes) -> str:
